@@ -19,6 +19,7 @@ structure St where
   prevObjs : List RHost := []        -- objects of the ring before the last evrefresh
   specRep : List RHost := []         -- the property's reported list of the last evrefresh (local + valid peers)
   tracked : List Nat := []           -- objects reported DOWN by an event and not connected since
+  deb : RGhost := {}                 -- unit tier on the real refreshDebouncer (`reset evdb`, `evdb…`)
 
 def init : St := {}
 
@@ -130,6 +131,28 @@ def trackBatch (s : St) (b : List Ev) : St :=
   if s.noStatus then s else
   { s with tracked := (coalesce b).foldl (fun acc e => if e.2 == .down then acc ++ downedObj s e.1 else acc) s.tracked }
 
+/-- what the unit-level harness sees of the real refreshDebouncer after an op: is refreshFn running, is the timer
+running, does timer.C / refreshNowCh hold a value, is there a broadcaster, refreshFn calls started so far -/
+def debState (g : RGhost) : String :=
+  let b (x : Bool) : String := if x then "1" else "0"
+  "ph=" ++ (match g.d.phase with | .idle => "idle" | .woken => "woken" | .running => "run") ++
+  " timer=" ++ b g.d.deadline.isSome ++ " fired=" ++ b g.d.fired ++ " tok=" ++ b g.d.nowPending ++
+  " bc=" ++ b g.d.bc ++ " n=" ++ toString g.d.refreshes
+
+def debOp (s : St) (op : DOp) : St × String :=
+  let g := dstep 5 s.deb op
+  ({ s with deb := g }, debState g)
+
+/-- one refresh of the E2E tier: `refreshRing` with these rows on the view `s.v`, then every pool connects -/
+def e2eRefresh (s : St) (rows : String) : Option St :=
+  match parseRows rows with
+  | [] => none
+  | loc :: peers =>
+    let s1 := regRows { s with prevIds := s.v.ring.ids, prevObjs := s.v.ring.allHosts, specRep := getHostsSpec loc peers s.nextObj } (loc :: peers)
+    match getHosts loc peers s.nextObj with
+    | none => none
+    | some hs => some { s1 with v := connectAll s1.env (s1.v.refresh s1.env hs) }
+
 def oracleStr (pfx : String) (l : List Nat) : String :=
   if l.isEmpty then "ok" else pfx ++ ",".intercalate (l.map toString)
 
@@ -161,7 +184,14 @@ def refreshOp (s : St) (rows : String) : St × String :=
   evinpolicy | evinpolicyx                      oracle "every object new in the ring is in the policy's lists"
   evnotoffered                                  oracle "no object reported DOWN (and not connected since) is offered"
   evnostale                                     oracle "no by-address entry is stale" (addresses 0..1023)
-  e2eorder <n>                                  n STATUS_CHANGE frames written back to back reach the debouncer in wire order -/
+  e2eorder <n>                                  n STATUS_CHANGE frames written back to back reach the debouncer in wire order
+  e2ehold <evsA> <rowsA> <evsB> <rowsB>         burst A while the tables hold rowsA; the control node HOLDS its answer to system.peers (computed
+                                                at arrival); the tables change to rowsB and burst B (topology events / UP of unknown addresses)
+                                                is pushed and debounced WHILE that refresh is running; release; quiescence
+  reset evdb                                    a real refreshDebouncer (1 h interval, refreshFn blocks until released, timer fired by hand)
+  evdbreq | evdbnow | evdbfire | evdbrel | evdbdrain   debounce() / refreshNow() / the timer fires / refreshFn returns / until quiet (Model DOp)
+  evdbserved                                    oracle "every request was followed by a refresh that started after it; every refreshNow() caller
+                                                was answered, and not by a refresh that had started before its call" (positions in the requests) -/
 def step (s : St) (ws : List String) : St × String :=
   let env := s.env
   match ws with
@@ -285,6 +315,35 @@ def step (s : St) (ws : List String) : St × String :=
           let v3 := s3.v.refresh s3.env hs
           let v4 := connectAll s3.env v3
           ({ s3 with v := v4 }, "refreshed=1 " ++ snapshotE v4)
+  | ["e2ehold", bA, rowsA, bB, rowsB] =>
+    let evsA := parseBatch bA
+    let s0 := trackBatch s evsA
+    let v1 := connectAll env (s.v.handleBatch env evsA)
+    if v1.crashed then ({ s0 with v := { v1 with crashed := false } }, "crash:nil-host") else
+    if v1.refreshReq == s.v.refreshReq then ({ s0 with v := v1 }, "err:no-refresh") else
+    (match e2eRefresh { s0 with v := v1 } rowsA with
+    | none => ({ s0 with v := v1 }, "bad-op")
+    | some s1 =>
+      -- burst B is handled while the first refresh waits for its answer: the ring it sees is the one before that refresh
+      -- for the addresses B may name (unknown before AND after it), its status handlers change nothing
+      let evsB := parseBatch bB
+      let s2 := trackBatch s1 evsB
+      let v2 := connectAll s1.env (s1.v.handleBatch s1.env evsB)
+      if v2.crashed then ({ s2 with v := { v2 with crashed := false } }, "crash:nil-host") else
+      if v2.refreshReq == s1.v.refreshReq then ({ s2 with v := v2 }, "refreshed=1 " ++ snapshotE v2) else
+      match e2eRefresh { s2 with v := v2 } rowsB with
+      | none => ({ s2 with v := v2 }, "bad-op")
+      | some s3 => (s3, "refreshed=2 " ++ snapshotE s3.v))
+  | ["reset", "evdb"] => ({ deb := {} }, "ok")
+  | ["evdbreq"] => debOp s .req
+  | ["evdbnow"] => debOp s .now
+  | ["evdbfire"] => debOp s .fire
+  | ["evdbrel"] => debOp s .release
+  | ["evdbdrain"] => debOp s .drain
+  | ["evdbserved"] =>
+    (s, if !s.deb.lost.isEmpty then oracleStr "lost:" s.deb.lost
+        else if !s.deb.early.isEmpty then oracleStr "early:" s.deb.early
+        else oracleStr "unanswered:" s.deb.unanswered)
   | ["e2ebound"] => (s, "ok")
   | ["e2eorder", n] =>
     -- n STATUS_CHANGE frames written back to back: the buffer of the node-event debouncer is the wire order (C16_wire_order_last_wins)
